@@ -67,6 +67,7 @@ type End struct {
 	OnSend   func(pkt packet.Generic) // called at the instant a packet is written (before it is transferred)
 	OnRecv   func(pkt packet.Generic) // called at the instant a packet is returned by Receive
 	Hold     bool                     // when set, Send blocks (models a peer that does not read and a full socket buffer)
+	StickyHold bool                   // a held Send is not released by closing the connection either (a write stuck below the transport: only Release ends it)
 	unhold   chan struct{}
 	unheld   bool
 	isExpired bool
@@ -98,7 +99,12 @@ func (e *End) Send(pkt packet.Generic, async bool) error {
 	if e.p.isShut {
 		return ErrClosedPipe
 	}
-	if e.Hold {
+	if e.Hold && e.StickyHold {
+		<-e.unhold
+		if e.p.isShut {
+			return ErrClosedPipe
+		}
+	} else if e.Hold {
 		select {
 		case <-e.unhold:
 		case <-e.p.closed:
